@@ -212,6 +212,20 @@ def addHeader (r : Resp) (h : Header) : Resp :=
 def Resp.new (status : Nat) (hs : List Header) (len : Option Nat) : Resp :=
   hs.foldl addHeader ⟨status, [], len, none⟩
 
+def ctHeader : Header := ⟨b!"Content-Type", b!"text/plain; charset=UTF-8"⟩
+
+/-- `Response::from_string` (the argument is the UTF-8 encoding of the string). -/
+def Resp.fromString (s : Bytes) : Resp := Resp.new 200 [ctHeader] (some s.length)
+
+/-- `Response::from_data`, and `from_file` for a file whose metadata length is its content length. -/
+def Resp.fromData (d : Bytes) : Resp := Resp.new 200 [] (some d.length)
+
+/-- `Response::empty`. -/
+def Resp.empty (status : Nat) : Resp := Resp.new status [] (some 0)
+
+/-- `Response::with_data` (the new reader is carried separately as `pieces`). -/
+def Resp.withData (r : Resp) (len : Option Nat) : Resp := { r with dataLength := len }
+
 def Resp.chunkedThreshold (r : Resp) : Nat := r.threshold.getD Extracted.defaultThreshold
 
 /-! ## Serialisation -/
